@@ -486,6 +486,10 @@ Definition error_transfer_matrix (g : grid) (second : bool) (ci : bool) : M (tag
 Definition infidelity_derivative (g : grid) : M (tag * how) :=
   r <- get_deriv g ;; may_raise L_integrate ;;; ret r.
 
+(* propagator_at_arb_t(t): diagonalize, then t, propagators, eigvecs, eigvals are read and util.cexp is called *)
+Definition propagator_at : M unit :=
+  diagonalize ;;; t_prop ;;; lazy_prop S_propagators ;;; lazy_prop S_eigvecs ;;; may_raise L_cexp ;;; ret tt.
+
 (* what concatenate(...) does to an input pulse that is not the last one (equal noise operators,
    frequencies given), what extend(...) does to an input, what concatenate_periodic does *)
 Definition concat_input (g : grid) : M unit :=
@@ -523,7 +527,8 @@ Inductive op :=
 | Cumulant (g : grid) (pw : pwhich) (second : bool) (cio : option bool)
 | ErrorTransferMatrix (g : grid) (second ci : bool)
 | InfidelityDerivative (g : grid)
-| ConcatInput (g : grid) | ExtendInput (g : grid) | PeriodicInput | RemapInput.
+| ConcatInput (g : grid) | ExtendInput (g : grid) | PeriodicInput | RemapInput
+| PropagatorAt.
 
 Definition user_tag (g : grid) (correct : bool) : tag := if correct then TF g else TBad (glen g).
 
@@ -562,6 +567,7 @@ Definition run_op (o : op) : M (option (tag * how)) :=
   | ExtendInput g => noret (extend_input g)
   | PeriodicInput => noret periodic_input
   | RemapInput => ret None
+  | PropagatorAt => noret propagator_at
   end.
 
 End Methods.
